@@ -260,16 +260,22 @@ func runC20(c *core.Ctx) {
 	// interceptor): a status error passes through the second interceptor unchanged, so the
 	// intercepting client at the far end receives what the one next to the origin receives
 	if c.Case%4 == 1 {
-		_, fwd := c20fwd.Echo(ctx, &egrpc.EchoRequest{Text: key})
+		// (its own watchdog: the observations above may have used up the first one on a loaded machine)
+		fctx, fcancel := context.WithTimeout(context.Background(), 120*time.Second)
+		_, fwd := c20fwd.Echo(fctx, &egrpc.EchoRequest{Text: key})
+		expired := fctx.Err() != nil
+		fcancel()
 		c.Count("forwarded-rpcs", 1)
-		if fwd == nil {
+		if expired {
+			c.Inconclusive("forwarded RPC: watchdog deadline hit")
+		} else if fwd == nil {
 			c.Violate("forwarded/nil", "a forwarded error arrives as nil", t.String())
 		} else if p := core.Try(func() {
 			fobs := obs.Full(fwd)
 			if diff := obs.DiffRec(gobs, fobs, nil); len(diff) > 0 {
 				k := diff[0]
 				c.Violate("forwarded/"+recKeyClass(k), "the error received through a forwarding service differs from the one received next to the origin",
-					fmt.Sprintf("%s\nfield %s:\n near: %s\n far:  %s", t, k, trimS(gobs[k], 1200), trimS(fobs[k], 1200)))
+					fmt.Sprintf("%s\nfield %s:\n first difference: %s\n near: %s\n far:  %s", t, k, firstDiff(gobs[k], fobs[k]), trimS(gobs[k], 1200), trimS(fobs[k], 1200)))
 			}
 			if a, b := isAnswers(got, refs), isAnswers(fwd, refs); a != b {
 				c.Violate("forwarded/is", "identity (Is) of the forwarded error differs", fmt.Sprintf("%s\n%s\n%s", t, a, b))
